@@ -40,7 +40,7 @@ SHARD_TIMEOUT = {"quick": 300, "thorough": 1500}
 
 
 def all_cases(tier: str, seed: int):  # noqa: ANN201
-    yield from treecheck.cases("c06", tier, seed, 5000, 80000, extra=treefam.deadline_nests,
+    yield from treecheck.cases("c06", tier, seed, 5000, 80000, extra=lambda: itertools.chain(treefam.deadline_nests(), treefam.deadline_histories()),
                                uvloop=False)
 
 
@@ -64,6 +64,3 @@ def finish(col, tier: str) -> None:  # noqa: ANN001
               "window:deadline_reassigned"):  # fmt: skip
         if not col.counters.get(k):
             col.inconclusive_because(f"deciding window never reached: {k}")
-
-
-del itertools
